@@ -176,9 +176,80 @@ def drv_glif(case, rnd, ctx, scratch):
         validate = rnd.random() < 0.85
         with ctx.lib("glif.writeGlyphToString", fmt=fmt):
             glifLib.writeGlyphToString(g["name"], obj, draw, formatVersion=rnd.choice([fmt, (fmt, 0)]), validate=validate)
+    if fmt == 2:
+        _identifier_bounds(glifLib, rnd)
     ctx.sample = {"case": case["id"], "last_glyph": {"name": g["name"], "outline_elements": len(g["outline"] or []),
                                                      "attrs": [k for k in ex.GLYPH_ATTRS if g[k]]},
                   "classes_seen": sorted(st.S["keys"])[:8], "evaluations": st.S["n"]}
+
+
+def _identifier_bounds(glifLib, rnd):
+    """UFO 3: an identifier is 1..100 characters in 0x20..0x7E.  Every site that carries one (contour, point,
+    component, anchor, guideline) must accept lengths 1, 99 and 100 and reject 101 and characters outside the
+    range - when writing and when reading a GLIF written by another tool."""
+    from fontTools.pens.recordingPen import RecordingPointPen
+    alphabet = "abcdefghijklmnopqrstuvwxyzABCDEFGHIJKLMNOPQRSTUVWXYZ0123456789-_.~ "
+    cases = [(1, True), (99, True), (100, True), (101, False), (rnd.randrange(2, 99), True), (150, False)]
+    for n, valid in cases:
+        ident = "".join(rnd.choice(alphabet) for _ in range(n)).replace("  ", " x")
+        if rnd.random() < 0.15 and n > 1:
+            ident, valid = ident[:-1] + rnd.choice(["\x7f", "\xe9", "\u2028"]), False
+        for site in ("contour", "point", "component", "anchor", "guideline"):
+            obj = Bag()
+            outline = []
+            if site == "contour":
+                outline = [("contour", {"identifier": ident, "points": [{"x": 0, "y": 0, "type": "line", "smooth": False, "name": None, "identifier": None}]})]
+            elif site == "point":
+                outline = [("contour", {"identifier": None, "points": [{"x": 0, "y": 0, "type": "line", "smooth": False, "name": None, "identifier": ident}]})]
+            elif site == "component":
+                outline = [("component", {"base": "b", "transformation": (1, 0, 0, 1, 0, 0), "identifier": ident})]
+            elif site == "anchor":
+                obj.anchors = [{"x": 1, "y": 2, "name": "top", "identifier": ident}]
+            else:
+                obj.guidelines = [{"x": 1, "y": 2, "angle": 45, "identifier": ident}]
+            st.judged()
+            try:
+                data = glifLib.writeGlyphToString("a", obj, ex.draw_outline(outline) if outline else None, formatVersion=2, validate=True)
+                wrote = True
+            except glifLib.GlifLibError:
+                wrote, data = False, None
+            except Exception as e:       # noqa: BLE001
+                st.bad({"kind": "validator", "func": "identifierValidator", "op": "write", "problem": "raised " + type(e).__name__},
+                       "writing a glyph with a %d-character %s identifier raised %r" % (n, site, e), identifier=ident)
+                continue
+            if wrote != valid:
+                st.bad({"kind": "validator", "func": "identifierValidator", "op": "write",
+                        "problem": "valid identifier rejected" if valid else "invalid identifier accepted"},
+                       "GLIF writer %s a %s identifier of %d characters" % ("rejected" if valid else "accepted", site, len(ident)),
+                       identifier=ident, site=site)
+                continue
+            # the reading side, on a GLIF spelled by hand (as another tool would write it)
+            if any(ord(c) > 0x7e or ord(c) < 0x20 for c in ident):
+                continue
+            att = ' identifier="%s"' % ident
+            xml = ('<?xml version="1.0" encoding="UTF-8"?>\n<glyph name="a" format="2">%s%s<outline>%s</outline></glyph>' % (
+                '<anchor x="1" y="2" name="top"%s/>' % att if site == "anchor" else "",
+                '<guideline x="1" y="2" angle="45"%s/>' % att if site == "guideline" else "",
+                '<component base="b"%s/>' % att if site == "component" else
+                '<contour%s><point x="0" y="0" type="line"%s/></contour>' % (att if site == "contour" else "", att if site == "point" else "")
+                if site in ("contour", "point") else ""))
+            st.judged()
+            try:
+                glifLib.readGlyphFromString(xml, Bag(), RecordingPointPen(), validate=True)
+                read = True
+            except glifLib.GlifLibError:
+                read = False
+            except Exception as e:       # noqa: BLE001
+                st.bad({"kind": "validator", "func": "identifierValidator", "op": "read", "problem": "raised " + type(e).__name__},
+                       "reading a glyph with a %d-character %s identifier raised %r" % (n, site, e), identifier=ident)
+                continue
+            if read != valid:
+                st.bad({"kind": "validator", "func": "identifierValidator", "op": "read",
+                        "problem": "valid identifier rejected" if valid else "invalid identifier accepted"},
+                       "GLIF reader %s a %s identifier of %d characters" % ("rejected" if valid else "accepted", site, len(ident)),
+                       identifier=ident, site=site)
+            elif valid:
+                st.key("identifier/%s/len%s" % (site, n if n in (1, 99, 100) else "mid"))
 
 
 def drv_corpus_glif(case, rnd, ctx, scratch):
